@@ -38,6 +38,7 @@ type Inv struct {
 	EndSeq   int64
 	Outcome  int // 0 running, 1 ok, 2 returned error, 3 panicked, 4 returned nil
 	Outs     []*Entry
+	Shadow   bool // made on behalf of another provider built from the same collection (see World.Shadow)
 }
 
 // ArgRec records what a constructor received for one declared dependency.
@@ -63,6 +64,7 @@ type Entry struct {
 	Inv      *Inv // nil for instance values
 	ScopeTag int
 	BornSeq  int64
+	Shadow   bool // made for another provider built from the same collection
 
 	mu        sync.Mutex
 	Closes    []CloseRec
@@ -72,6 +74,9 @@ type Entry struct {
 func (e *Entry) String() string {
 	if e == nil {
 		return "<nil>"
+	}
+	if e.Shadow {
+		return fmt.Sprintf("#%d(r%d.%d %s, made for ANOTHER provider built from the same collection)", e.Serial, e.Reg, e.Out, TypeName(e.Impl))
 	}
 	return fmt.Sprintf("#%d(r%d.%d %s s%d)", e.Serial, e.Reg, e.Out, TypeName(e.Impl), e.ScopeTag)
 }
@@ -164,6 +169,13 @@ type World struct {
 	Anomaly        []string
 	inPreBuild     atomic.Bool
 	nilClosesBase  int64
+	// shadow: constructors currently run on behalf of ANOTHER provider built from the same
+	// collection (Runner.Rebuild). Their invocations and instances are kept apart
+	// (ShadowInvs / ShadowEntries): they are no part of the history of the provider under
+	// test - which must never hand out, or be handed, any of them.
+	shadow        atomic.Bool
+	ShadowInvs    []*Inv
+	ShadowEntries []*Entry
 
 	// HoldArgs (C14): instances keep what they were constructed with alive, the
 	// ledger keeps no strong reference to built-in arguments.
@@ -268,7 +280,12 @@ func (w *World) newEntry(r *Reg, out int, impl int, inv *Inv) (*Entry, reflect.V
 	w.mu.Lock()
 	w.serial++
 	e.Serial = w.serial
-	w.Entries = append(w.Entries, e)
+	if inv != nil && inv.Shadow {
+		e.Shadow = true
+		w.ShadowEntries = append(w.ShadowEntries, e)
+	} else {
+		w.Entries = append(w.Entries, e)
+	}
 	w.mu.Unlock()
 	obj.Interface().(Svc).SetEnt(e)
 	if w.OnMade != nil && inv != nil {
@@ -416,6 +433,14 @@ func (w *World) Service(r *Reg) any {
 func (w *World) begin(r *Reg) *Inv {
 	g := Goid()
 	inv := &Inv{Reg: r.ID, Goid: g, ScopeTag: w.curScope(g), StartSeq: w.NextSeq()}
+	if w.shadow.Load() {
+		inv.Shadow = true
+		inv.N = -1
+		w.mu.Lock()
+		w.ShadowInvs = append(w.ShadowInvs, inv)
+		w.mu.Unlock()
+		return inv
+	}
 	w.mu.Lock()
 	w.Count[r.ID]++
 	inv.N = w.Count[r.ID]
@@ -765,7 +790,46 @@ func (w *World) RegisterAll(c godi.Collection, order []int) error {
 			c.Remove(RType(g.T))
 		}
 	}
+	standInAt := map[int][]int{} // call position -> indices of registrations whose stand-in is registered there
 	for n, i := range order {
+		if r := &w.Cfg.Regs[i]; standInOK(r) {
+			at := n - r.StandInLead
+			if at < 0 {
+				at = 0
+			}
+			standInAt[at] = append(standInAt[at], i)
+		}
+	}
+	standInIdent := func(r *Reg) Ident { return r.AllProvides()[0].Ident }
+	for n, i := range order {
+		for _, si := range standInAt[n] {
+			r := &w.Cfg.Regs[si]
+			id := standInIdent(r)
+			ctor := w.ThrowawayCtor(id.T, "the stand-in that "+r.String()+" replaced")
+			var opts []godi.AddOption
+			if id.Key != "" {
+				opts = append(opts, godi.Name(id.Key))
+			}
+			var err error
+			switch r.StandInLife {
+			case Singleton:
+				err = c.AddSingleton(ctor, opts...)
+			case Scoped:
+				err = c.AddScoped(ctor, opts...)
+			default:
+				err = c.AddTransient(ctor, opts...)
+			}
+			if err != nil {
+				return fmt.Errorf("register stand-in for %s: %w", r.String(), err)
+			}
+		}
+		if r := &w.Cfg.Regs[i]; standInOK(r) {
+			if id := standInIdent(r); id.Key != "" {
+				c.RemoveKeyed(RType(id.T), id.Key)
+			} else {
+				c.Remove(RType(id.T))
+			}
+		}
 		for gi, g := range w.Cfg.Ghosts {
 			if g.At == n || (n == 0 && g.At < 0) {
 				if err := w.registerGhost(c, gi, g); err != nil {
@@ -799,6 +863,12 @@ func (w *World) RegisterAll(c godi.Collection, order []int) error {
 	return nil
 }
 
+// standInOK: the registration has a stand-in and still has the shape stand-ins exist for (a
+// planted defect may have copied or changed it since it was generated).
+func standInOK(r *Reg) bool {
+	return r.StandIn && (r.Form == FormPlain || r.Form == FormInstance) && len(r.As) == 0 && r.Group == "" && !r.HasCtorOf && len(r.After) == 0 && len(r.Dropped) == 0
+}
+
 // registerGhost registers a registration that will be removed again before
 // Build; its constructor must never run for a provider built afterwards.
 func (w *World) registerGhost(c godi.Collection, gi int, g Ghost) error {
@@ -826,13 +896,38 @@ func (w *World) registerGhost(c godi.Collection, gi int, g Ghost) error {
 	return c.AddTransient(ctor, opts...)
 }
 
+// Foreign runs f while everything the harness-made constructors and Close
+// methods do is attributed to another provider: faults, close errors and gates
+// are suspended, invocations and instances go to the shadow ledger, and
+// constructors that belong to no registration of the model may run.
+func (w *World) Foreign(f func()) {
+	w.mu.Lock()
+	faults, closeErr, closeFail, closePanic, onMade := w.Faults, w.CloseErr, w.CloseFailRegs, w.ClosePanicRegs, w.OnMade
+	w.Faults, w.CloseErr, w.CloseFailRegs, w.ClosePanicRegs, w.OnMade = map[[2]int]Fault{}, map[int]error{}, map[int]bool{}, map[int]bool{}, nil
+	w.mu.Unlock()
+	gate := w.gateFn.Swap(nil)
+	w.shadow.Store(true)
+	w.inPreBuild.Store(true)
+	defer func() {
+		w.inPreBuild.Store(false)
+		w.shadow.Store(false)
+		w.gateFn.Store(gate)
+		w.mu.Lock()
+		w.Faults, w.CloseErr, w.CloseFailRegs, w.ClosePanicRegs, w.OnMade = faults, closeErr, closeFail, closePanic, onMade
+		w.mu.Unlock()
+	}()
+	f()
+}
+
 // ThrowawayCtor returns a constructor for type id t that belongs to no
 // registration of the model (collection edits after Build): running it is an anomaly.
 func (w *World) ThrowawayCtor(t int, what string) any {
 	rt := RType(t)
 	ft := reflect.FuncOf(nil, []reflect.Type{rt}, false)
 	return reflect.MakeFunc(ft, func([]reflect.Value) []reflect.Value {
-		w.anomaly("the constructor of %s ran: the provider had been built before it was registered", what)
+		if !w.inPreBuild.Load() {
+			w.anomaly("the constructor of %s ran although it is no part of the registrations the provider was built from", what)
+		}
 		if rt.Kind() == reflect.Pointer {
 			return []reflect.Value{reflect.New(rt.Elem())}
 		}
